@@ -275,6 +275,11 @@ func runC09on(c *Check, w *World) {
 							}
 							return ""
 						}
+						if why := lenDep(args[bArg], 0); why != "" && hArg != bArg {
+							// the same holds for the submitted operand: cut at a position computed from the expected code
+							// (its number of leading zeros, say), the part left out is compared elsewhere, early-exit
+							c.Bad("S7", fname, construct+"@whole-code", "the submitted operand of the constant-time comparison went through "+why+": only a part of the code chosen at run time is compared in constant time", w.InstrPos(in))
+						}
 						if why := lenDep(args[hArg], 0); why != "" {
 							c.Bad("S7", fname, construct+"@whole-operand", "the HMAC-derived operand of the constant-time comparison went through "+why+": its length depends on its content, and the comparator's length test is an early exit", w.InstrPos(in))
 						} else {
